@@ -4,6 +4,7 @@ import SC.Proofs.RIndex
 import SC.Proofs.RCountByte
 import SC.Proofs.RLastIndex
 import SC.Proofs.RIndexAny6
+import SC.Proofs.RByteLevel
 /-!
 # C07 — strcase and bytcase are the same function on the same bytes
 
@@ -29,6 +30,10 @@ theorem indexByte_parity (cfg : A.Cfg) (s : Bytes) (c : UInt8) :
     A.LastIndexByte (str cfg) s c = A.LastIndexByte (byt cfg) s c ∧
     A.IndexByteASCII (str cfg) s c = A.IndexByteASCII (byt cfg) s c ∧
     A.IndexNonASCII (str cfg) s = A.IndexNonASCII (byt cfg) s := ⟨rfl, rfl, rfl⟩
+
+theorem indexByte_parity2 (cfg : A.Cfg) (s : Bytes) (c : UInt8) :
+    A.IndexByte (str cfg) s c = A.IndexByte (byt cfg) s c := by
+  rw [A.IndexByte_eq, A.IndexByte_eq]
 
 /-- prefix / suffix family: both packages refine the same specification -/
 theorem affix_parity (cfg : A.Cfg) (s p : Bytes) :
